@@ -190,6 +190,19 @@ func driveC05(c *h.Ctx) error {
 	if err != nil {
 		return err
 	}
+	// the process has seen KMIP 2.x headers (a server decodes the header of a request before it refuses its
+	// version) and has encoded gated structures on their own (a log line) before any 1.x message is encoded:
+	// neither has any bearing on what a 1.x message contains
+	func() {
+		defer func() { _ = recover() }()
+		for minor := int32(0); minor <= 2; minor++ {
+			m := kmip.RequestMessage{Header: kmip.RequestHeader{ProtocolVersion: kmip.ProtocolVersion{ProtocolVersionMajor: 2, ProtocolVersionMinor: minor}, BatchCount: 0}}
+			b := ttlv.MarshalTTLV(&m)
+			var back kmip.RequestMessage
+			_ = ttlv.UnmarshalTTLV(b, &back)
+			_ = ttlv.MarshalXML(&m)
+		}
+	}()
 	plan := gv.CoveragePlan()
 	var idx []int
 	if c.Replay != nil {
